@@ -417,7 +417,11 @@ class World:
                     self.mstate[key] = "running"
                 mc.boundary = False
                 mc.usage = t.demand
-                if t.exact:
+                if t.alts and len({a > mc.ram for a in t.alts}) == 2:
+                    # forced single tick of a zero-duration operator: the statement does not say which
+                    # memory figure it shows, and the admissible figures disagree about the limit
+                    over_own = None
+                elif t.exact:
                     over_own = t.demand > mc.ram
                 else:
                     over_own = None if near(t.demand, mc.ram) else t.demand > mc.ram
